@@ -17,6 +17,20 @@ def upSpec (s span : Int) : Int := s + (-s) % span
 def roundSpec (s span : Int) : Int :=
   if upSpec s span - s ≤ s - truncSpec s span then upSpec s span else truncSpec s span
 
+/-- which of the three results -/
+inductive Kind where
+  | trunc | round | up
+  deriving DecidableEq, Repr
+
+def specOf : Kind → Int → Int → Int
+  | .trunc => truncSpec
+  | .round => roundSpec
+  | .up => upSpec
+
+/-- the 64-bit window of nanosecond stamps and spans -/
+def InI64 (x : Int) : Prop := -9223372036854775808 ≤ x ∧ x ≤ 9223372036854775807
+instance (x : Int) : Decidable (InI64 x) := by unfold InI64; exact inferInstance
+
 /-- the span for `digits` sub-second digits: 10^(9 − min 9 digits) -/
 def digitSpan (digits : Nat) : Int := 10 ^ (9 - min 9 digits)
 
